@@ -498,7 +498,8 @@ def run(prop: str, tier: str) -> int:
     bounds["grid"] = grid_text()
     items = [(prop, s, name) for s in sks for name, _ in RULES]
     rnd.shuffle(items)
-    collect(rep, pmap(case_worker, items, budget_s=budget, chunk=16))
+    items.sort(key=lambda it: -sk_size(it[1]))  # biggest first: better balance over the workers
+    collect(rep, pmap(case_worker, items, budget_s=budget, chunk=6))
     rep.extra["skeletons"] = len(sks)
     required = [name for name, _ in RULES if (prop == "C02") == name.startswith("BalancedMove") or prop == "C02"]
     if prop == "C01":
